@@ -307,6 +307,24 @@ func (fr *frame) lookupDebug(name string, st *State) (Val, bool) {
 		}
 		return n
 	}
+	// a variable that lives in a memory cell (its address is taken somewhere) denotes
+	// the cell's CURRENT content; SSA values loaded from it earlier may be stale
+	for _, d := range fr.debug[name] {
+		if !d.IsAddr {
+			continue
+		}
+		a, ok := d.X.(*ssa.Alloc)
+		if !ok {
+			continue
+		}
+		if fr.cur != nil && !(a.Block() == fr.cur || a.Block().Dominates(fr.cur)) {
+			continue
+		}
+		if _, known := fr.vals[a]; !known {
+			continue
+		}
+		return fr.load(st, fr.val(a), 0), true
+	}
 	bestDepth, bestIdx := -1, -2
 	var bestVal ssa.Value
 	bestAddr := false
@@ -1221,6 +1239,28 @@ func (e *SpecEnv) modItems(m Expr) []modItem {
 	if u, ok := m.(*EUnary); ok && u.Op == "*" {
 		m = u.X
 		deref = true
+	}
+	if call, ok := m.(*ECall); ok {
+		if id, ok := call.Fun.(*EIdent); ok && id.Name == "pointee" && len(call.Args) == 1 {
+			// pointee(x): x is an interface value built at the call site from a typed
+			// pointer (binary.Read(r, order, &v)): the cell it points to and, for a
+			// pointer to a slice, the slice's backing array. Resolved statically.
+			v := e.tr(call.Args[0])
+			if v.Boxed == nil {
+				e.errorf("pointee(%s): the argument is not built from a typed pointer at this call site", call.Args[0])
+				return nil
+			}
+			pt, ok := v.Boxed.Ty.Underlying().(*types.Pointer)
+			if !ok {
+				return nil // a non-pointer value: nothing the callee can write through
+			}
+			items := []modItem{{sortKey: c.hk(pt.Elem()), obj: c.acc("pobj", v.Boxed.T), idx: c.acc("pidx", v.Boxed.T)}}
+			if sl, ok := pt.Elem().Underlying().(*types.Slice); ok {
+				hdr := c.rd(e.heapOf(c.hk(pt.Elem())), c.acc("pobj", v.Boxed.T), c.acc("pidx", v.Boxed.T))
+				items = append(items, modItem{sortKey: c.hk(sl.Elem()), obj: c.acc("sobj", hdr)})
+			}
+			return items
+		}
 	}
 	v := e.tr(m)
 	if v.Ty == nil {
